@@ -306,6 +306,35 @@ def run_views(ctx, n):
             ctx.exc(e); ctx.V(f"C19:zoned-clock-raised:{type(e).__name__}", f"ZonedClock getter raised {e!r}", case, repr(e)); continue
         if not ok:
             ctx.V("C19:zoned-clock-view", f"ZonedClock({z.id}, {cal.id}) over a FakeClock at {nsv} does not report that instant rendered in its zone and calendar", case)
+    # several reads on ONE ZonedClock while the wrapped clock moves across a zone transition (exactly onto it, one ns either side)
+    from vf import zonewalk
+    for _ in range(max(8, n // 25)):
+        z = tz[rng.choice(["Europe/London", "America/New_York", "Pacific/Apia", "Australia/Lord_Howe", "Europe/Dublin", rng.choice(ids)])]
+        log, _p = zonewalk.walk(z, -2 * 10**18, 4 * 10**18)
+        trans = [r[0] for r in log[1:] if r[0] is not None]
+        if not trans:
+            continue
+        t = rng.choice(trans); cal = rng.choice([gen.ISO, rng.choice(cals)]); lo, hi = gen.cal_range(cal.id)
+        if not (lo + 3) * DAY < t < (hi - 3) * DAY:
+            cal = gen.ISO
+        fc = FakeClock(gen.ns_inst(t - 3600 * NS), Duration.zero)
+        zc = ZonedClock(fc, z, cal)
+        cur = t - 3600 * NS
+        for step in (0, 3600 * NS - 1, 1, 1, 3600 * NS, -3600 * NS - 1, 1, 30 * 60 * NS):
+            cur += step
+            if step:
+                fc.advance(Duration.from_nanoseconds(step))
+            i = gen.ns_inst(cur); exp = i.in_zone(z, cal)
+            case = {"kind": "view", "zone": z.id, "cal": cal.id, "ns": cur, "transition": t}
+            ctx.ev(); ctx.counters["zoned_views"] += 1; ctx.key(("view-seq", cur - t if abs(cur - t) <= 1 else (cur > t)))
+            try:
+                got = (zc.get_current_instant(), zc.get_current_zoned_date_time(), zc.get_current_local_date_time(), zc.get_current_offset_date_time(), zc.get_current_date(), zc.get_curent_time_of_day())
+            except Exception as e:  # noqa: BLE001
+                ctx.exc(e); ctx.V(f"C19:zoned-clock-raised:{type(e).__name__}", f"ZonedClock getter raised {e!r}", case, repr(e)); break
+            want = (i, exp, exp.local_date_time, exp.to_offset_date_time(), exp.date, exp.time_of_day)
+            if got != want:
+                ctx.V("C19:zoned-clock-view", f"ZonedClock({z.id}, {cal.id}) read at {cur} ({cur - t:+d} ns from a transition, after earlier reads on the same object) reports offset "
+                      f"{got[3].offset.seconds} s, local {got[2]!r}; the instant rendered in the zone has offset {want[3].offset.seconds} s, local {want[2]!r}", case)
     sc = SystemClock.instance
     for _ in range(2000 if ctx.tier == "quick" else 20000):
         a = time.time_ns(); v = gen.inst_ns(sc.get_current_instant()); b = time.time_ns()
